@@ -412,3 +412,19 @@ Definition serve_wire (c : config) (now_ns : Z) (ep : endpoint) (w : wire) : out
 Definition values_of (k : str) (pairs : list (str * str)) : list str :=
   map snd (filter (fun p => str_eqb (fst p) k) pairs).
 Definition presented (w : wire) (k : str) : list str := values_of k (w_body w ++ w_query w).
+
+(* ================= the outermost handler: NewAuthenticatorMux (mux.go:21-100) =================
+   cmd/sso-auth serves through AuthenticatorMux: setHealthCheck("/ping") in front of a hostmux router
+   whose only static route is the configured server host (anything else: 421 Misdirected Request),
+   behind it a path router: /<slug>/... -> the authenticator's ServeMux (prefix stripped),
+   /robots.txt, /static/. Only the three kinds of path the C07 driver sends are modelled; request
+   headers (X-Forwarded-*, Forwarded, ...) play no role in the code as it is. *)
+Inductive outer_path := OpPing | OpRobots | OpRoute (ep : endpoint).
+
+Definition outer_serve (c : config) (server_host req_host : str) (p : outer_path)
+           (now_ns : Z) (w : wire) : outcome :=
+  match p with
+  | OpPing => OPage 200                                   (* before host routing *)
+  | OpRobots => if str_eqb req_host server_host then OPage 200 else OErr 421
+  | OpRoute ep => if str_eqb req_host server_host then serve_wire c now_ns ep w else OErr 421
+  end.
